@@ -338,13 +338,20 @@ func c10Permute(n int, f func([]int)) {
 }
 
 // c10Sched: Log || Merge || GC || two Queries on one key, all interleavings up to the bound.
-func c10Sched(t *testing.T, remoteNewer bool, prefix []int, expect []string, trace bool) (x *sched.Exec, steps []string) {
+// With expiredStart the key already holds an entry whose expiry has passed but
+// which has not been collected yet (the state in which a group is notified again
+// after a long quiet period): the acknowledged Log must survive the concurrent GC.
+func c10Sched(t *testing.T, remoteNewer, expiredStart bool, prefix []int, expect []string, trace bool) (x *sched.Exec, steps []string) {
 	x = &sched.Exec{}
 	synctest.Test(t, func(t *testing.T) {
 		s := sched.New(prefix, expect)
 		s.Trace = trace
 		var y *c10Sys
 		s.Do(func() { y = newC10(nil) })
+		if expiredStart {
+			s.Do(func() { y.l.Log(c10Keys[0].r, c10Keys[0].gk, []uint64{1}, nil, nil, 0) })
+			time.Sleep(c10Ret + time.Second)
+		}
 		time.Sleep(time.Second)
 		now := time.Now()
 		rts := now.Add(-500 * time.Millisecond)
@@ -390,12 +397,21 @@ func c10Sched(t *testing.T, remoteNewer bool, prefix []int, expect []string, tra
 		if r, err := y.l.Query(QReceiver(c10Keys[0].r), QGroupKey(c10Keys[0].gk)); err == nil {
 			final = r[0].Timestamp.AsTime()
 		}
-		x.Outcome = fmt.Sprintf("reads=%v,%v final=%v", seen[0].Sub(now), seen[1].Sub(now), final.Sub(now))
+		rel := func(t time.Time) string {
+			if t.IsZero() {
+				return "not-found"
+			}
+			return t.Sub(now).String()
+		}
+		x.Outcome = fmt.Sprintf("reads=%s,%s final=%s", rel(seen[0]), rel(seen[1]), rel(final))
 		if x.Violation == "" {
 			switch {
 			case !final.Equal(want):
 				x.Violation = "final-entry-not-newest"
-			case seen[1].Before(seen[0]):
+			case !expiredStart && seen[1].Before(seen[0]):
+				x.Violation = "log-went-backwards"
+			case expiredStart && !seen[0].Before(rts) && seen[1].Before(seen[0]):
+				// a read of an unexpired entry followed by a read of an older one or of nothing
 				x.Violation = "log-went-backwards"
 			}
 		}
@@ -419,8 +435,8 @@ func TestVerifC10(t *testing.T) {
 				R.Violate(r.Viol, r.Desc, rp)
 			}
 			R.Write()
-		case "sched-remote-newer", "sched-remote-older":
-			x, steps := c10Sched(t, rp["part"] == "sched-remote-newer", rep.Ints(rp["choices"]), nil, true)
+		case "sched-remote-newer", "sched-remote-older", "sched-expired-entry":
+			x, steps := c10Sched(t, rp["part"] == "sched-remote-newer", rp["part"] == "sched-expired-entry", rep.Ints(rp["choices"]), nil, true)
 			for _, s := range steps {
 				fmt.Println("  step", s)
 			}
@@ -498,11 +514,8 @@ func TestVerifC10(t *testing.T) {
 		R.Write()
 	}
 	if shard == 0 {
-		for _, newer := range []bool{true, false} {
-			part := "sched-remote-older"
-			if newer {
-				part = "sched-remote-newer"
-			}
+		for _, part := range []string{"sched-remote-newer", "sched-remote-older", "sched-expired-entry"} {
+			newer := part == "sched-remote-newer"
 			R := rep.New("C10", part)
 			bound := 2
 			if rep.Thorough() {
@@ -510,7 +523,7 @@ func TestVerifC10(t *testing.T) {
 			}
 			e := &sched.Explorer{Bound: bound, Deadline: deadline}
 			e.Run = func(prefix []int, expect []string) *sched.Exec {
-				x, _ := c10Sched(t, newer, prefix, expect, false)
+				x, _ := c10Sched(t, newer, part == "sched-expired-entry", prefix, expect, false)
 				return x
 			}
 			e.Explore()
@@ -519,7 +532,7 @@ func TestVerifC10(t *testing.T) {
 				R.AddKey(o)
 			}
 			R.Exhaustive = !e.TimedOut && e.Abandoned == 0
-			R.Bound = fmt.Sprintf("Log || Merge || GC || 2xQuery, all schedules with <= %d preemptions", bound)
+			R.Bound = fmt.Sprintf("Log || Merge || GC || 2xQuery (%s), all schedules with <= %d preemptions", part, bound)
 			R.Extra["explorer"] = e.Summary()
 			for _, f := range e.Findings {
 				R.Violate(f.Violation, f.Outcome, map[string]any{"part": part, "choices": f.Choices})
